@@ -108,7 +108,7 @@ var probes = []probe{
 	{name: "ts-enum", feature: "ExponentOperator", loader: "ts", src: "enum E { A = 2, B = A ** 3, C = `x`.length }\nf(E)", also: []string{"TemplateLiteral"}, noKeep: true},
 	{name: "ts-namespace", feature: "ConstAndLet", loader: "ts", src: "namespace N { export const x = a ?? b; export let y = x?.z }\nf(N)", also: []string{"NullishCoalescing", "OptionalChain"}, noKeep: true},
 	{name: "ts-param-props", feature: "Class", loader: "ts", src: "class C { constructor(private x: number, public y = x ** 2) {} f = this.x }\nnew C(1)", also: []string{"ClassField", "ExponentOperator", "DefaultArgument"}, noKeep: true},
-	{name: "ts-decorators", feature: "Class", loader: "ts", src: "@dec class C { @dec m(@dec p) {} @dec f = 1 }\nnew C", also: []string{"Decorators", "ClassField"}, noKeep: true},
+	{name: "ts-decorators", feature: "Class", loader: "ts", src: "@dec class C { @dec m(p: number) {} @dec f = 1 }\nnew C", also: []string{"Decorators", "ClassField"}, noKeep: true},
 }
 
 // statements whose minified form may use newer syntax than their source
@@ -291,6 +291,14 @@ func corpus(st *Stats) {
 	c = &cfg{Supported: map[string]bool{"top-level-await": true}}
 	c.setTarget("es2015")
 	run("await x; export {}", c)
+	// found by the re-parse oracle (a lowering defect rather than a target leak)
+	c = &cfg{}
+	c.setTarget("es2021")
+	run("class C { static p = new.target }\nnew C", c)
+	// the refuted witness of lowering_closed: class-field lowering writes array spread
+	c = &cfg{Supported: map[string]bool{"class-field": false, "array-spread": false}}
+	c.setTarget("esnext")
+	run("class A extends B { x = 1 }\nnew A", c)
 }
 
 // ---------- glue ----------
@@ -304,8 +312,34 @@ func glue(r *Rng, st *Stats, cf *CoqFile, n int, tier string) {
 	os.WriteFile(dir+"/other.js", []byte("export var o = 1\nexport default 2\n"), 0o644)
 	os.WriteFile(dir+"/other.json", []byte("{\"a\": 1}\n"), 0o644)
 
-	var specItems []string
+	var specItems, lowerItems []string
 	dump := os.Getenv("C14_DUMP") != ""
+	realOnly := func(xs []string) []string {
+		var out []string
+		for _, f := range xs {
+			if _, ok := featByName[f]; ok {
+				out = append(out, f)
+			}
+		}
+		return out
+	}
+	lowerCase := func(kind string, c *cfg, p *probe, res result, detected []string) {
+		if p == nil || c.Bundle || c.Minify || c.Format != "" || c.KeepNames || !strings.HasPrefix(kind, "probe-") || strings.Contains(kind, "random") {
+			return
+		}
+		if c.contradiction() != "" {
+			return
+		}
+		var ul []string
+		for _, f := range namesOf(c.goOptions().UnsupportedJSFeatures) {
+			if f != "InlineScript" {
+				ul = append(ul, f)
+			}
+		}
+		prog := append([]string{p.feature}, p.also...)
+		lowerItems = append(lowerItems, fmt.Sprintf("(%s, %s, %s, %s)", coqFeatList(ul), coqFeatList(prog), CBool(res.ok), coqFeatList(realOnly(detected))))
+		st.Note("lower-graph", p.name+jsonStr(c), len(ul) > 0)
+	}
 
 	runOne := func(kind string, src string, esm bool, c *cfg, p *probe) {
 		var res result
@@ -330,9 +364,11 @@ func glue(r *Rng, st *Stats, cf *CoqFile, n int, tier string) {
 			if dump {
 				fmt.Printf("DUMP %s %s [%s] ERROR %v\n", kind, nameOf(p), jsonStr(c), msgTexts(res.errors))
 			}
+			lowerCase(kind, c, p, res, nil)
 			return
 		}
 		v := checkOutput(st, kind, src, c, res)
+		lowerCase(kind, c, p, res, v.detected)
 		if dump {
 			fmt.Printf("DUMP %s %s [%s] ok detected=%v warnings=%d\n", kind, nameOf(p), jsonStr(c), v.detected, len(res.warnings))
 		}
@@ -461,6 +497,7 @@ func glue(r *Rng, st *Stats, cf *CoqFile, n int, tier string) {
 		}
 	}
 	cf.AddCases("spec_cases", "Z * list feature * list feature", "check_spec_leaks", specItems)
+	cf.AddCases("lower_cases", "list feature * list feature * bool * list feature", "check_lower", lowerItems)
 }
 
 func nameOf(p *probe) string {
